@@ -1008,6 +1008,12 @@ class SStrA:
     def py_getattr(self, it, name):
         if name == "encode":
             return Builtin("SStrA.encode", lambda *a, **k: self.view)
+        if name == "split":
+            def split(sep=None, maxsplit=-1):
+                if not isinstance(sep, str) or len(sep.encode("utf-8")) != 1:
+                    raise Unsupported("split of a symbolic-length str with this separator")
+                return SplitList(self.view, sep, maxsplit)
+            return Builtin("SStrA.split", split)
         raise it.exc("AttributeError", name)
 
     def py_truth(self, it):
@@ -1015,6 +1021,28 @@ class SStrA:
 
     def __repr__(self):
         return f"SStrA({self.view})"
+
+
+class SplitList:
+    """text.split(sep) of a symbolic-length text: the list of its maximal sep-free pieces, kept abstract (the text's
+    view, the separator and maxsplit identify it).  It can be stored and compared, not indexed or iterated."""
+
+    def __init__(self, view, sep, maxsplit):
+        self.view, self.sep, self.maxsplit = view, sep, maxsplit
+
+    def py_class(self, it):
+        return it.builtins["list"]
+
+    def py_eq(self, it, o):
+        if isinstance(o, SplitList):
+            return And(self.view.eq(o.view), self.sep == o.sep, self.maxsplit == o.maxsplit)
+        raise Unsupported("comparison of an abstract split result with a concrete list")
+
+    def py_truth(self, it):
+        return True   # str.split(sep) never returns an empty list
+
+    def __repr__(self):
+        return f"SplitList({self.view!r}, {self.sep!r})"
 
 
 # valid_utf8 is uninterpreted over the byte sequence; for fixed-length sequences we build
